@@ -2,9 +2,10 @@
    the double loop of WMM.magnetic_field (hand model, instance at R) computes the degree-12 sums of the
    WMM report with Schmidt semi-normalised functions, for EVERY coefficient table. *)
 From Coq Require Import Reals List ZArith QArith Qreals Bool Lra Lia.
-From AhrsLib Require Import SphHarm.
+From AhrsLib Require Import Base SphHarm.
 From AhrsModel Require Import C14_wmm.
-From AhrsProps Require Import C14_poly.
+From AhrsGen Require Import C14gen_R.
+From AhrsProps Require Import C14_poly C14_data.
 Import ListNotations.
 Close Scope Q_scope.
 Open Scope R_scope.
@@ -32,10 +33,13 @@ Section Packing.
     apply in_map_iff. exists r. split; [reflexivity|exact Hin].
   Qed.
 
-  Ltac eqbs := repeat match goal with
-    | |- context [Nat.eqb ?a ?b] => destruct (Nat.eqb_spec a b)
-    | H : context [Nat.eqb ?a ?b] |- _ => destruct (Nat.eqb_spec a b)
-    end; cbn [andb] in *.
+  Lemma upd_eq (M : mat T) i j v : upd M i j v i j = v.
+  Proof. unfold upd. rewrite !Nat.eqb_refl. reflexivity. Qed.
+  Lemma upd_neq (M : mat T) i j v i' j' : (i' <> i \/ j' <> j) -> upd M i j v i' j' = M i' j'.
+  Proof.
+    intros H. unfold upd. destruct (Nat.eqb_spec i' i); destruct (Nat.eqb_spec j' j); cbn [andb]; try reflexivity.
+    exfalso; destruct H; contradiction.
+  Qed.
 
   (* one row written into the packed matrices *)
   Lemma step_cells (c0 cd0 : mat T) (r : row T) (n m : nat) :
@@ -47,10 +51,11 @@ Section Packing.
     else
       c1 m n = c0 m n /\ cd1 m n = cd0 m n /\ ((1 <= m)%nat -> c1 n (m - 1)%nat = c0 n (m - 1)%nat /\ cd1 n (m - 1)%nat = cd0 n (m - 1)%nat).
   Proof.
-    intros Hr Hm. unfold load_step, is_key, upd. cbn zeta.
-    destruct (Nat.eqb_spec (rm r) 0) as [E0|E0]; cbn [fst snd].
-    - eqbs; repeat split; intros; try reflexivity; try lia; eqbs; try reflexivity; lia.
-    - eqbs; repeat split; intros; try reflexivity; try lia; eqbs; try reflexivity; lia.
+    intros Hr Hm. unfold load_step, is_key. cbn zeta.
+    destruct (Nat.eqb_spec (rm r) 0) as [E0|E0]; cbn [fst snd];
+      destruct (Nat.eqb_spec (rn r) n) as [En|En]; destruct (Nat.eqb_spec (rm r) m) as [Em|Em]; cbn [andb];
+      repeat split; intros; repeat (first [rewrite upd_eq | rewrite upd_neq by lia]); try reflexivity;
+      try (exfalso; lia); subst; repeat (first [rewrite upd_eq | rewrite upd_neq by lia]); reflexivity.
   Qed.
 
   Lemma load_cells rows : forall (c0 cd0 : mat T), wf rows -> forall n m, (m <= n)%nat ->
@@ -182,28 +187,29 @@ Proof. induction k; cbn [opow pow]; cbn [omul o1 OpsR]; [reflexivity|rewrite IHk
 (* synthesis                                                                                    *)
 (* ------------------------------------------------------------------------------------------ *)
 Section Synth.
-  Variable rows : list (row R).
-  Hypothesis Hwf : wf rows.
+  (* everything the double loop reads, abstractly: the packed matrices hold g, h, gd, hd; the tables hold the
+     Schmidt factors and Legendre values characterised by C14_poly *)
+  Variables g h gd hd : nat -> nat -> R.
+  Variables c cd : mat R.
+  Hypothesis Hpack : forall n m, (m <= n)%nat ->
+    c m n = g n m /\ cd m n = gd n m /\ ((1 <= m)%nat -> c n (m - 1)%nat = h n m /\ cd n (m - 1)%nat = hd n m).
   Variables dt phi lam ar cpsi spsi : R.
+  Variables Pt dPt St : nat -> nat -> R.
+  Hypothesis HP : forall n m, (m <= n)%nat -> (n <= 12)%nat -> Smn OpsR n m * Pt n m = Pschmidt n m phi.
+  Hypothesis HdP : forall n m, (m <= n)%nat -> (n <= 12)%nat -> Smn OpsR n m * dPt n m = - dPschmidt n m phi.
+  Hypothesis HS : forall n m, (m <= n)%nat -> (n <= 12)%nat -> St n m = Smn OpsR n m.
 
-  Let c := fst (load OpsR rows).
-  Let cd := snd (load OpsR rows).
   (* the spec's Gauss coefficients at time t0 + dt *)
-  Definition g_t (n m : nat) : R := advance (coef OpsR rg rows) (coef OpsR rgd rows) dt n m.
-  Definition h_t (n m : nat) : R := advance (coef OpsR rh rows) (coef OpsR rhd rows) dt n m.
-
-  Let Pt := tabP RR NMAX (leg_upto RR (sin phi) (cos phi) NMAX).
-  Let dPt := tabdP RR NMAX (leg_upto RR (sin phi) (cos phi) NMAX).
-  Let St := fun n m => nth m (nth n (map (fun n => map (Smn OpsR n) (seq 0 (S n))) (seq 0 (S NMAX))) []) (o0 OpsR).
+  Definition g_t (n m : nat) : R := advance g gd dt n m.
+  Definition h_t (n m : nat) : R := advance h hd dt n m.
 
   Lemma gchs_spec n m : (m <= n)%nat -> (n <= 12)%nat ->
     gchs OpsR c cd dt (sin lam) (cos lam) St n m =
     Smn OpsR n m * (g_t n m * cos (INR m * lam) + h_t n m * sin (INR m * lam)).
   Proof.
     intros Hm Hn. unfold gchs, gh_g, gh_h, cpm, spm. rewrite multiple_angle_gen. cbn [fst snd].
-    unfold St. rewrite (stab_ok OpsR NMAX n m) by (unfold NMAX; lia).
-    destruct (packing_roundtrip_gen OpsR rows Hwf n m Hm) as [E1 [E2 E3]]. cbn zeta in E1, E2, E3.
-    fold c in E1, E3. fold cd in E2, E3. unfold g_t, h_t, advance.
+    rewrite (HS n m Hm Hn).
+    destruct (Hpack n m Hm) as [E1 [E2 E3]]. unfold g_t, h_t, advance.
     cbn [oadd osub omul OpsR]. rewrite E1, E2.
     destruct (Nat.eqb_spec m 0) as [->|Hne].
     - cbn [INR]. rewrite Rmult_0_l, sin_0, cos_0. ring.
@@ -214,23 +220,11 @@ Section Synth.
     Smn OpsR n m * (g_t n m * sin (INR m * lam) - h_t n m * cos (INR m * lam)).
   Proof.
     intros H1 Hm Hn. unfold gshc, gh_g, gh_h, cpm, spm. rewrite multiple_angle_gen. cbn [fst snd].
-    unfold St. rewrite (stab_ok OpsR NMAX n m) by (unfold NMAX; lia).
-    destruct (packing_roundtrip_gen OpsR rows Hwf n m Hm) as [E1 [E2 E3]]. cbn zeta in E1, E2, E3.
-    fold c in E1, E3. fold cd in E2, E3. unfold g_t, h_t, advance.
+    rewrite (HS n m Hm Hn).
+    destruct (Hpack n m Hm) as [E1 [E2 E3]]. unfold g_t, h_t, advance.
     cbn [oadd osub omul OpsR]. rewrite E1, E2.
     destruct (Nat.eqb_spec m 0) as [->|Hne]; [lia|].
     destruct (E3 H1) as [E4 E5]. rewrite E4, E5. ring.
-  Qed.
-
-  Lemma Pt_spec n m : (m <= n)%nat -> (n <= 12)%nat -> Smn OpsR n m * Pt n m = Pschmidt n m phi.
-  Proof.
-    intros Hm Hn. unfold Pt. rewrite tabP_ok by (unfold NMAX; lia).
-    apply (proj1 (legendre_matches_spec_12 n m phi Hm Hn)).
-  Qed.
-  Lemma dPt_spec n m : (m <= n)%nat -> (n <= 12)%nat -> Smn OpsR n m * dPt n m = - dPschmidt n m phi.
-  Proof.
-    intros Hm Hn. unfold dPt. rewrite tabdP_ok by (unfold NMAX; lia).
-    apply (proj2 (legendre_matches_spec_12 n m phi Hm Hn)).
   Qed.
 
   Lemma x_p_spec n : (1 <= n <= 12)%nat ->
@@ -239,46 +233,132 @@ Section Synth.
   Proof.
     intros Hn. unfold x_p. rewrite fsum_R, <- Rsum_opp. apply Rsum_ext. intros m Hm'. apply in_seq in Hm'.
     rewrite gchs_spec by lia. cbn [omul OpsR].
-    pose proof (dPt_spec n m ltac:(lia) ltac:(lia)) as E.
+    pose proof (HdP n m ltac:(lia) ltac:(lia)) as E.
     replace (dPschmidt n m phi) with (- (Smn OpsR n m * dPt n m)) by (rewrite E; ring). ring.
   Qed.
+  Lemma z_p_spec n : (1 <= n <= 12)%nat ->
+    z_p OpsR c cd dt (sin lam) (cos lam) Pt St n =
+    Rsum (seq 0 (S n)) (fun m => (g_t n m * cos (INR m * lam) + h_t n m * sin (INR m * lam)) * Pschmidt n m phi).
+  Proof.
+    intros Hn. unfold z_p. rewrite fsum_R. apply Rsum_ext. intros m Hm'. apply in_seq in Hm'.
+    rewrite gchs_spec by lia. cbn [omul OpsR].
+    rewrite <- (HP n m ltac:(lia) ltac:(lia)). ring.
+  Qed.
+  Lemma y_p_spec n : (1 <= n <= 12)%nat ->
+    y_p OpsR c cd dt (sin lam) (cos lam) Pt St n =
+    Rsum (seq 0 (S n)) (fun m => INR m * (g_t n m * sin (INR m * lam) - h_t n m * cos (INR m * lam)) * Pschmidt n m phi).
+  Proof.
+    intros Hn. unfold y_p. rewrite fsum_R. apply Rsum_ext. intros m Hm'. apply in_seq in Hm'.
+    cbn [omul oZ OpsR]. rewrite <- INR_IZR_INZ.
+    destruct (Nat.eq_dec m 0) as [->|Hm0]; [cbn [INR]; ring|].
+    rewrite gshc_spec by lia.
+    rewrite <- (HP n m ltac:(lia) ltac:(lia)). ring.
+  Qed.
+
   Lemma Xp_spec : Xp OpsR c cd dt (sin lam) (cos lam) ar dPt St = sh_X 12 g_t h_t ar lam phi.
   Proof.
     unfold Xp, sh_X, NMAX. rewrite fsum_R, <- Rsum_opp. apply Rsum_ext. intros n Hn. apply in_seq in Hn.
-    unfold arn2. rewrite opow_R, x_p_spec by lia. cbn [omul OpsR]. ring.
+    unfold arn2. rewrite opow_R, x_p_spec by lia. cbn [omul OpsR].
+    match goal with |- ?q * - ?s = _ => generalize q s; intros; ring end.
   Qed.
   Lemma Zp_spec : Zp OpsR c cd dt (sin lam) (cos lam) ar Pt St = sh_Z 12 g_t h_t ar lam phi.
   Proof.
     unfold Zp, sh_Z, NMAX. cbn [osub omul o0 oZ OpsR]. rewrite fold_sub. rewrite Rminus_0_l. f_equal.
     apply Rsum_ext. intros n Hn. apply in_seq in Hn.
-    unfold arn2, z_p. rewrite opow_R, fsum_R. rewrite <- INR_IZR_INZ. f_equal.
-    apply Rsum_ext. intros m Hm'. apply in_seq in Hm'.
-    rewrite gchs_spec by lia. cbn [omul OpsR].
-    rewrite <- (Pt_spec n m ltac:(lia) ltac:(lia)). ring.
+    unfold arn2. rewrite opow_R, z_p_spec by lia. rewrite <- INR_IZR_INZ. reflexivity.
   Qed.
   Lemma Yp_spec : cos phi <> 0 ->
     Yp OpsR c cd dt (sin lam) (cos lam) ar Pt St / cos phi = sh_Y 12 g_t h_t ar lam phi.
   Proof.
     intros Hc. unfold Yp, sh_Y, NMAX. rewrite fsum_R. unfold Rdiv. rewrite Rmult_comm. f_equal.
     apply Rsum_ext. intros n Hn. apply in_seq in Hn.
-    unfold arn2, y_p. rewrite opow_R, fsum_R. cbn [omul OpsR]. f_equal.
-    apply Rsum_ext. intros m Hm'. apply in_seq in Hm'.
-    cbn [omul oZ OpsR]. rewrite <- INR_IZR_INZ.
-    destruct (Nat.eq_dec m 0) as [->|Hm0]; [cbn [INR]; ring|].
-    rewrite gshc_spec by lia.
-    rewrite <- (Pt_spec n m ltac:(lia) ltac:(lia)). ring.
+    unfold arn2. rewrite opow_R, y_p_spec by lia. reflexivity.
   Qed.
 
-  (* synthesis_matches_spec + the rotation to geodetic axes *)
-  Theorem synthesis_matches_spec_gen : cos phi <> 0 ->
-    core OpsR c cd dt (sin phi) (cos phi) (sin lam) (cos lam) ar cpsi spsi =
+  Theorem core_with_spec : cos phi <> 0 ->
+    core_with OpsR c cd dt (sin phi) (cos phi) (sin lam) (cos lam) ar cpsi spsi Pt dPt St =
     let X' := sh_X 12 g_t h_t ar lam phi in
     let Y' := sh_Y 12 g_t h_t ar lam phi in
     let Z' := sh_Z 12 g_t h_t ar lam phi in
     (X' * cpsi - Z' * spsi, Y', X' * spsi + Z' * cpsi).
   Proof.
-    intros Hc. unfold core. cbn zeta. fold RR. fold Pt dPt St. unfold core_with, Yf.
+    intros Hc. unfold core_with, Yf.
     cbn [ois0 OpsR]. destruct (Req_EM_T (cos phi) 0) as [E|_]; [contradiction|].
     cbn [oadd osub omul odiv OpsR]. rewrite Xp_spec, Zp_spec, (Yp_spec Hc). reflexivity.
   Qed.
 End Synth.
+
+(* synthesis_matches_spec + the rotation to geodetic axes, for the model's own tables and any well-formed file *)
+Theorem synthesis_matches_spec_gen (rows : list (row R)) (dt phi lam ar cpsi spsi : R) :
+  wf rows -> cos phi <> 0 ->
+  core OpsR (fst (load OpsR rows)) (snd (load OpsR rows)) dt (sin phi) (cos phi) (sin lam) (cos lam) ar cpsi spsi =
+  let g := g_t (coef OpsR rg rows) (coef OpsR rgd rows) dt in
+  let h := h_t (coef OpsR rh rows) (coef OpsR rhd rows) dt in
+  let X' := sh_X 12 g h ar lam phi in
+  let Y' := sh_Y 12 g h ar lam phi in
+  let Z' := sh_Z 12 g h ar lam phi in
+  (X' * cpsi - Z' * spsi, Y', X' * spsi + Z' * cpsi).
+Proof.
+  intros Hwf Hc. unfold core. cbn zeta. fold RR.
+  apply (core_with_spec (coef OpsR rg rows) (coef OpsR rh rows) (coef OpsR rgd rows) (coef OpsR rhd rows)).
+  - intros n m Hm. exact (packing_roundtrip_gen OpsR rows Hwf n m Hm).
+  - intros n m Hm Hn. rewrite tabP_ok by (unfold NMAX; lia). apply (proj1 (legendre_matches_spec_12 n m phi Hm Hn)).
+  - intros n m Hm Hn. rewrite tabdP_ok by (unfold NMAX; lia). apply (proj2 (legendre_matches_spec_12 n m phi Hm Hn)).
+  - intros n m Hm Hn. apply stab_ok; unfold NMAX; lia.
+  - exact Hc.
+Qed.
+
+(* ------------------------------------------------------------------------------------------ *)
+(* the whole pipeline on reals: date -> file, degrees -> radians, geodetic -> geocentric, synthesis, rotation  *)
+(* ------------------------------------------------------------------------------------------ *)
+Lemma shipped_wf d : wf (rows_R (epoch_R d)).
+Proof.
+  pose proof (rows_R_keys (epoch_R d) (epoch_R_le d)) as E. split.
+  - change (@key R) with rkey. rewrite E. apply keys12_nodup.
+  - apply rows_le. exact E.
+Qed.
+
+(* geodetic2spherical as regenerated (C14_data.g2s_generated), returning (phi', r) *)
+Definition g2s_code (lat h : R) : R * R :=
+  let Rc := a_code / sqrt (1 - e2_code * (sin lat) ^ 2) in
+  let p := (Rc + h) * cos lat in
+  let z := (Rc * one_minus_e2_code + h) * sin lat in
+  let r := sqrt (p * p + z * z) in
+  (asin (z / r), r).
+
+(* hand model of WMM().magnetic_field(lat, lon, h, date=d) -> (X, Y, Z); t is the date on the 0.1-year grid
+   (round(d, 1) in the code) *)
+Definition wmm_model_R (d t lat lon h : R) : R * R * R :=
+  let e := epoch_R d in
+  let phi := lat * (PI / 180) in
+  let lam := lon * (PI / 180) in
+  let phi' := fst (g2s_code phi h) in
+  let r := snd (g2s_code phi h) in
+  core OpsR (fst (load OpsR (rows_R e))) (snd (load OpsR (rows_R e))) (t - t0_R e)
+       (sin phi') (cos phi') (sin lam) (cos lam) ((31856 / 5) / r) (cos (phi' - phi)) (sin (phi' - phi)).
+
+(* the property's right-hand side: degree-12 Schmidt synthesis of the file whose epoch contains d, coefficients
+   advanced linearly to t, rotated to geodetic axes *)
+Definition wmm_spec_R (d t lat lon h : R) : R * R * R :=
+  let e := epoch_R d in
+  let rows := rows_R e in
+  let g := advance (coef OpsR rg rows) (coef OpsR rgd rows) (t - t0_R e) in
+  let hh := advance (coef OpsR rh rows) (coef OpsR rhd rows) (t - t0_R e) in
+  let phi := lat * (PI / 180) in
+  let lam := lon * (PI / 180) in
+  let phi' := fst (g2s_code phi h) in
+  let r := snd (g2s_code phi h) in
+  let q := (31856 / 5) / r in
+  to_geodetic (sh_X 12 g hh q lam phi') (sh_Y 12 g hh q lam phi') (sh_Z 12 g hh q lam phi') (phi' - phi).
+
+Theorem wmm_field_spec_gen d t lat lon h :
+  cos (fst (g2s_code (lat * (PI / 180)) h)) <> 0 -> wmm_model_R d t lat lon h = wmm_spec_R d t lat lon h.
+Proof.
+  intros Hc. unfold wmm_model_R, wmm_spec_R. cbv zeta.
+  rewrite (synthesis_matches_spec_gen _ _ _ _ _ _ _ (shipped_wf d) Hc). reflexivity.
+Qed.
+
+(* the front end of the model is the regenerated geodetic2spherical *)
+Lemma g2s_code_generated (lat lon h : R) :
+  C14_g2s_R lat lon h = Val [fst (g2s_code lat h); lon; snd (g2s_code lat h)].
+Proof. rewrite g2s_generated. reflexivity. Qed.
